@@ -102,7 +102,9 @@ pub fn replay(case: &Value) -> Result<(), String> {
 pub fn run(ctx: &Ctx) -> i32 {
     let st = Stats::new();
     // ---- payload IDs
-    let sbns: Vec<u8> = if ctx.quick() { vec![0, 1, 2, 127, 128, 0x5A, 254, 255] } else { (0..=255).collect() };
+    // all 2^32 payload IDs in both tiers (about 2 s on 16 cores)
+    let sbns: Vec<u8> = (0..=255).collect();
+    let _ = ctx.quick();
     // work item = (sbn, high ESI byte)
     par_for(sbns.len() * 256, |w| {
         let sbn = sbns[w / 256];
